@@ -54,11 +54,73 @@ def uninterpreted_symbols(e, acc=None, seen=None):
     return acc
 
 
-def add_axiom(name, formula):
+AXIOM_TRIGGERS = []
+
+
+def add_axiom(name, formula, trigger=None):
+    """`trigger`: (bound variables, pattern term) used to instantiate a universally quantified axiom on the ground terms of a query
+    when the quantified query comes back `unknown` (see ground_instances)."""
     if name not in AXIOM_NAMES:
         AXIOM_NAMES.append(name)
         AXIOMS.append(formula)
         AXIOM_SYMS.append(uninterpreted_symbols(formula))
+        AXIOM_TRIGGERS.append(trigger)
+
+
+def _subterms(es):
+    seen, out, stack = set(), [], list(es)
+    while stack:
+        x = stack.pop()
+        if not z3.is_expr(x) or x.get_id() in seen:
+            continue
+        seen.add(x.get_id())
+        out.append(x)
+        if z3.is_quantifier(x):
+            continue
+        stack.extend(x.children())
+    return out
+
+
+def ground_instances(constraints, rounds=2):
+    """Instances of the triggered axioms on the ground terms of the query (no quantifiers): used to find counter-models."""
+    used = set()
+    for c in constraints:
+        if z3.is_expr(c):
+            used |= uninterpreted_symbols(c)
+    insts, terms = [], list(constraints)
+    for _ in range(rounds):
+        new = []
+        subs = _subterms(terms + insts)
+        for ax, syms, trig in zip(AXIOMS, AXIOM_SYMS, AXIOM_TRIGGERS):
+            if not (syms & used):
+                continue
+            if not z3.is_quantifier(ax):
+                new.append(ax)
+                continue
+            if trig is None:
+                continue
+            bound, pat = trig
+            body = ax.body()
+            for t in subs:
+                if z3.is_app(t) and t.decl().eq(pat.decl()) and t.num_args() == pat.num_args():
+                    m = {}
+                    ok = True
+                    for pa, ta in zip(pat.children(), t.children()):
+                        k = [i for i, b in enumerate(bound) if b.eq(pa)]
+                        if k:
+                            m[k[0]] = ta
+                        elif not pa.eq(ta):
+                            ok = False
+                    if ok and len(m) == len(bound):
+                        # de Bruijn: Var(0) is the LAST bound variable
+                        inst = z3.substitute_vars(body, *[m[i] for i in reversed(range(len(bound)))])
+                        new.append(inst)
+        ids = {i.get_id() for i in insts}
+        fresh = [n for n in new if n.get_id() not in ids]
+        if not fresh:
+            break
+        insts += fresh
+    return insts
 
 
 _SYMS_MEMO = {}
@@ -174,6 +236,17 @@ def _check(constraints, timeout_ms=None, want_model=False, use_axioms=True):
         s2.add(constraints)
         r = s2.check()
         s = s2
+    if r == z3.unknown and axioms and any(z3.is_quantifier(a) for a in axioms):
+        # quantified axioms make satisfiable queries `unknown`: look for a counter-model with the axioms instantiated on the ground terms
+        # of the query (a model of the instances; `unsat` here would also be a sound proof since instances are consequences of the axioms)
+        s3 = z3.Solver()
+        s3.set("timeout", timeout_ms or DEFAULT_TIMEOUT_MS)
+        s3.add(ground_instances(constraints))
+        s3.add(constraints)
+        r3 = s3.check()
+        if r3 != z3.unknown:
+            STATS.by_backend["z3"] += 1
+            return str(r3), (s3.model() if (r3 == z3.sat and want_model) else None), dt
     if r == z3.unknown:
         r2 = check_cvc5(s.to_smt2(), timeout_ms or DEFAULT_TIMEOUT_MS)
         if r2 in ("sat", "unsat"):
